@@ -28,6 +28,7 @@ type Seen struct {
 	// TS server: the object the TS route passed to the handler, verbatim
 	JSON    []byte
 	JSONErr string
+	JSONErrField string
 	Headers map[string]string
 }
 
